@@ -213,7 +213,7 @@ def run(ctx):
     ctx.exhaustive = True
     rng = ctx.rng
     pal = obs.PALETTE
-    for _ in range(ctx.share(1500 if quick else 60000)):
+    for _ in range(ctx.share(1500 if quick else 300000)):
         sep = obs.rand_spec(rng, 2, 2, "-,", palette=pal)
         items = []
         for _ in range(rng.randint(0, 3)):
@@ -227,7 +227,7 @@ def run(ctx):
             case["alias"] = [[len(items) - 1, j]]
         run_case(ctx, case)
         ctx.count("joins")
-    for _ in range(ctx.share(3000 if quick else 150000)):
+    for _ in range(ctx.share(3000 if quick else 600000)):
         spec = obs.rand_spec(rng, 6, 5, "abcdefg一\n", palette=pal)
         L = sum(len(t) for t, _ in spec)
         c = lambda: rng.choice([None, rng.randint(-L - 2, L + 2)])
